@@ -10,7 +10,7 @@ import z3
 
 from pvc.contract import Contract
 from pvc import vcgen as V
-from pvc.vcgen import XR, Lst, SetLst, Obj, Fn, LoopSpec, ValSort, ValSeq, NONE
+from pvc.vcgen import XR, Lst, SetLst, Obj, Fn, LoopSpec, ValSort, ValSeq, NONE, MapV, Tup
 from pvc.sym import Unsupported
 
 J = z3.Int("j")
@@ -275,6 +275,129 @@ def spec_solution_cost(complete=True):
     return spec
 
 
+# ------------------------------------------------------------------ AgentDef.route / hosting_cost (loop free, abstract maps)
+
+def spec_route():
+    name = z3.Const("self_name", ValSort)
+    other = z3.Const("other_agt", ValSort)
+    has = z3.Function("routes_has", ValSort, z3.BoolSort())
+    rv, wf = _xr_fun("routes_value")
+    dflt, wfd = XR.fresh("default_route")
+
+    def env(it):
+        return {"self": Obj("self", {"name": name, "_routes": MapV("_routes", has, rv), "default_route": dflt}), "other_agt": other}
+
+    def ensures(it, st, val):
+        v = it.num(val)
+        exp_self = z3.And(v.k == 0, v.v == 0)
+        return z3.And(z3.Implies(name == other, exp_self),
+                      z3.Implies(z3.And(name != other, has(other)), v.eq(rv(other))),
+                      z3.Implies(z3.And(name != other, z3.Not(has(other))), v.eq(dflt)))
+    return dict(env=env, requires=lambda it, st: [wf, wfd], ensures=ensures, loops={})
+
+
+def spec_hosting_cost():
+    comp = z3.Const("computation", ValSort)
+    has = z3.Function("hosting_has", ValSort, z3.BoolSort())
+    hv, wf = _xr_fun("hosting_value")
+    dflt, wfd = XR.fresh("default_hosting_cost")
+
+    def env(it):
+        return {"self": Obj("self", {"_hosting_costs": MapV("_hosting_costs", has, hv), "_default_hosting_cost": dflt, "default_hosting_cost": dflt}),
+                "computation": comp}
+
+    def ensures(it, st, val):
+        v = it.num(val)
+        return z3.And(z3.Implies(has(comp), v.eq(hv(comp))), z3.Implies(z3.Not(has(comp)), v.eq(dflt)))
+    return dict(env=env, requires=lambda it, st: [wf, wfd], ensures=ensures, loops={})
+
+
+# ------------------------------------------------------------------ MessagePassingComputation.on_message / post_msg (loop free)
+
+def _entry3():
+    mk = z3.Function("entry3", ValSort, ValSort, ValSort, ValSort)
+    return mk
+
+
+def spec_on_message():
+    recv0 = z3.Const("recv0", ValSeq)
+    sender, msg, t = (z3.Const(n, ValSort) for n in ("sender", "msg", "t"))
+    paused, running = z3.Bool("is_paused"), z3.Bool("running")
+    mk = _entry3()
+    dh_has = z3.Function("decorated_has", ValSort, z3.BoolSort())
+    mh_has = z3.Function("msg_handlers_has", ValSort, z3.BoolSort())
+    mtype = z3.Function("type_of", ValSort, ValSort)
+
+    def handler(which):
+        def call(it, st, a, k):
+            st.ghosts["handled"] = st.ghosts.get("handled", 0) + 1
+            args = a[1:] if which == "decorated" else a
+            it.prove("on_message.handler-gets-(sender,msg,t)", st, z3.And(args[0] == sender, args[1] == msg, args[2] == t))
+            return NONE
+        return Fn("handler", call)
+
+    def attr_val(it, st, base, attr):
+        if attr == "type":
+            return mtype(base)
+        if attr == "size":
+            return 0
+        raise Unsupported("attribute " + attr)
+
+    def env(it):
+        self = Obj("self", {"is_paused": paused, "_is_paused": paused, "_running": running, "name": z3.Const("self_name", ValSort),
+                            "_paused_messages_recv": Lst(recv0),
+                            "_decorated_handlers": MapV("_decorated_handlers", dh_has, lambda k: handler("decorated")),
+                            "_msg_handlers": MapV("_msg_handlers", mh_has, lambda k: handler("plain")),
+                            "logger": Obj("logger", {"debug": Fn("debug", lambda it, st, a, k: NONE)})})
+        return {"self": self, "sender": sender, "msg": msg, "t": t}
+
+    def pack(it, st, tup):
+        if len(tup.items) != 3:
+            raise Unsupported("entry arity")
+        return mk(*tup.items)
+
+    def ensures(it, st, val):
+        buf = st.env["self"].attrs["_paused_messages_recv"].s
+        handled = st.ghosts.get("handled", 0)
+        active = z3.And(z3.Not(paused), running)
+        return z3.And(z3.Implies(active, z3.And(buf == recv0, z3.BoolVal(handled == 1))),
+                      z3.Implies(z3.Not(active), z3.And(buf == z3.Concat(recv0, z3.Unit(mk(sender, msg, t))), z3.BoolVal(handled == 0))))
+    return dict(env=env, ensures=ensures, attr_val=attr_val, pack=pack, loops={},
+                # a message type with no handler at all is outside the contract (the runtime raises KeyError for it)
+                requires=lambda it, st: [z3.Or(dh_has(mtype(msg)), mh_has(mtype(msg)))],
+                globals={"event_bus": Obj("event_bus", {"send": Fn("send", lambda it, st, a, k: NONE)})},
+                frame={"_paused_messages_recv"})
+
+
+def spec_post_msg():
+    post0 = z3.Const("post0", ValSeq)
+    target, msg, prio, onerr = (z3.Const(n, ValSort) for n in ("target", "msg", "prio", "on_error"))
+    paused = z3.Bool("is_paused")
+    name = z3.Const("self_name", ValSort)
+    mk4 = z3.Function("entry4", ValSort, ValSort, ValSort, ValSort, ValSort)
+
+    def sender(it, st, a, k):
+        st.ghosts["sent"] = st.ghosts.get("sent", 0) + 1
+        it.prove("post_msg.sender-gets-(self.name,target,msg,prio,on_error)", st,
+                 z3.And(a[0] == name, a[1] == target, a[2] == msg, a[3] == prio, a[4] == onerr))
+        return NONE
+
+    def env(it):
+        self = Obj("self", {"is_paused": paused, "_is_paused": paused, "name": name, "_paused_messages_post": Lst(post0),
+                            "_msg_sender": Fn("_msg_sender", sender)})
+        return {"self": self, "target": target, "msg": msg, "prio": prio, "on_error": onerr}
+
+    def ensures(it, st, val):
+        buf = st.env["self"].attrs["_paused_messages_post"].s
+        sent = st.ghosts.get("sent", 0)
+        return z3.And(z3.Implies(z3.Not(paused), z3.And(buf == post0, z3.BoolVal(sent == 1))),
+                      z3.Implies(paused, z3.And(buf == z3.Concat(post0, z3.Unit(mk4(target, msg, prio, onerr))), z3.BoolVal(sent == 0))))
+    return dict(env=env, ensures=ensures, loops={}, frame={"_paused_messages_post"},
+                attr_val=lambda it, st, base, attr: 0 if attr == "size" else (_ for _ in ()).throw(Unsupported("attribute " + attr)),
+                pack=lambda it, st, tup: mk4(*tup.items),
+                globals={"event_bus": Obj("event_bus", {"send": Fn("send", lambda it, st, a, k: NONE)})})
+
+
 def _is_false(v):
     return z3.BoolVal(v is False) if isinstance(v, bool) else z3.Not(v)
 
@@ -356,6 +479,10 @@ U_TARGETS = {
     "get_value_candidates[None]": ("pydcop.algorithms.syncbb:get_value_candidates", lambda: spec_value_candidates(True), ["C02"]),
     "get_value_candidates[value]": ("pydcop.algorithms.syncbb:get_value_candidates", lambda: spec_value_candidates(False), ["C02"]),
     "solution_cost[complete]": ("pydcop.dcop.dcop:solution_cost", lambda: spec_solution_cost(True), ["C13"]),
+    "AgentDef.route": ("pydcop.dcop.objects:AgentDef.route", spec_route, ["C31"]),
+    "AgentDef.hosting_cost": ("pydcop.dcop.objects:AgentDef.hosting_cost", spec_hosting_cost, ["C31"]),
+    "MessagePassingComputation.on_message": ("pydcop.infrastructure.computations:MessagePassingComputation.on_message", spec_on_message, ["C19"]),
+    "MessagePassingComputation.post_msg": ("pydcop.infrastructure.computations:MessagePassingComputation.post_msg", spec_post_msg, ["C19"]),
     "MessagePassingComputation.pause(False)": ("pydcop.infrastructure.computations:MessagePassingComputation.pause", spec_pause_resume, ["C19"]),
     "MessagePassingComputation.start": ("pydcop.infrastructure.computations:MessagePassingComputation.start", spec_start, ["C19"]),
 }
@@ -410,5 +537,5 @@ def _u_contract(prop):
     )
 
 
-for _p in ("C06", "C01", "C02", "C19", "C13"):
+for _p in ("C06", "C01", "C02", "C19", "C13", "C31"):
     _u_contract(_p)
